@@ -477,64 +477,80 @@ func runSchedule(sc cScenario, prefix []int, rng *rand.Rand, cb *coSched) (Case,
 	// final observation
 	var entries []string
 	var ri, rs, rl, ti, ts, tl int64
-	if sc.Kind == "mem" {
-		ps := e.stores[0]
-		half := memory.VerifShardCount(ps) / 2
-		ds := memory.VerifDump(ps)
-		sort.Slice(ds, func(a, b int) bool {
-			if ds[a].InfoHash != ds[b].InfoHash {
-				return string(ds[a].InfoHash[:]) < string(ds[b].InfoHash[:])
-			}
-			if ds[a].Shard != ds[b].Shard {
-				return ds[a].Shard < ds[b].Shard
-			}
-			if ds[a].Seeder != ds[b].Seeder {
-				return ds[a].Seeder
-			}
-			return ds[a].Key < ds[b].Key
-		})
-		for _, d := range ds {
-			entries = append(entries, fmt.Sprintf("(%s, %s, %s, %s, %s)", cB(d.InfoHash[:]), cBool(d.Shard >= half), cBool(d.Seeder), cB([]byte(d.Key)), cZ(d.MTime)))
-		}
-		memory.VerifPopulateProm(ps)
-		for _, sh := range memory.VerifShards(ps) {
-			ri += int64(sh.Swarms)
-			rs += int64(sh.Seeders)
-			rl += int64(sh.Leechers)
-		}
-	} else {
-		redisstore.VerifPopulateProm(e.stores[0])
-		keys := e.mr.Keys()
-		sort.Strings(keys)
-		for _, k := range keys {
-			if len(k) == 47 && (strings.HasPrefix(k, "IPv4_") || strings.HasPrefix(k, "IPv6_")) {
-				ihb, err := hexDecodeC(k[7:])
-				if err != nil {
-					continue
+	observe := func() {
+		entries, ri, rs, rl = nil, 0, 0, 0
+		if sc.Kind == "mem" {
+			ps := e.stores[0]
+			half := memory.VerifShardCount(ps) / 2
+			ds := memory.VerifDump(ps)
+			sort.Slice(ds, func(a, b int) bool {
+				if ds[a].InfoHash != ds[b].InfoHash {
+					return string(ds[a].InfoHash[:]) < string(ds[b].InfoHash[:])
 				}
-				fields, _ := e.mr.HKeys(k)
-				sort.Strings(fields)
-				for _, f := range fields {
-					mt, _ := strconv.ParseInt(e.mr.HGet(k, f), 10, 64)
-					entries = append(entries, fmt.Sprintf("(%s, %s, %s, %s, %s)", cB(ihb), cBool(k[3] == '6'), cBool(k[5] == 'S'), cB([]byte(f)), cZ(mt)))
-					if k[5] == 'S' {
-						rs++
-					} else {
-						rl++
+				if ds[a].Shard != ds[b].Shard {
+					return ds[a].Shard < ds[b].Shard
+				}
+				if ds[a].Seeder != ds[b].Seeder {
+					return ds[a].Seeder
+				}
+				return ds[a].Key < ds[b].Key
+			})
+			for _, d := range ds {
+				entries = append(entries, fmt.Sprintf("(%s, %s, %s, %s, %s)", cB(d.InfoHash[:]), cBool(d.Shard >= half), cBool(d.Seeder), cB([]byte(d.Key)), cZ(d.MTime)))
+			}
+			memory.VerifPopulateProm(ps)
+			for _, sh := range memory.VerifShards(ps) {
+				ri += int64(sh.Swarms)
+				rs += int64(sh.Seeders)
+				rl += int64(sh.Leechers)
+			}
+		} else {
+			redisstore.VerifPopulateProm(e.stores[0])
+			keys := e.mr.Keys()
+			sort.Strings(keys)
+			for _, k := range keys {
+				if len(k) == 47 && (strings.HasPrefix(k, "IPv4_") || strings.HasPrefix(k, "IPv6_")) {
+					ihb, err := hexDecodeC(k[7:])
+					if err != nil {
+						continue
+					}
+					fields, _ := e.mr.HKeys(k)
+					sort.Strings(fields)
+					for _, f := range fields {
+						mt, _ := strconv.ParseInt(e.mr.HGet(k, f), 10, 64)
+						entries = append(entries, fmt.Sprintf("(%s, %s, %s, %s, %s)", cB(ihb), cBool(k[3] == '6'), cBool(k[5] == 'S'), cB([]byte(f)), cZ(mt)))
+						if k[5] == 'S' {
+							rs++
+						} else {
+							rl++
+						}
+					}
+				}
+				if k == "IPv4" || k == "IPv6" {
+					f, _ := e.mr.HKeys(k)
+					for _, sk := range f {
+						if len(sk) > 5 && sk[5] == 'S' {
+							ri++
+						}
 					}
 				}
 			}
-			if k == "IPv4" || k == "IPv6" {
-				f, _ := e.mr.HKeys(k)
-				for _, sk := range f {
-					if len(sk) > 5 && sk[5] == 'S' {
-						ri++
-					}
-				}
-			}
 		}
+		ti, ts, tl = gaugeValC(storage.PromInfohashesCount), gaugeValC(storage.PromSeedersCount), gaugeValC(storage.PromLeechersCount)
 	}
-	ti, ts, tl = gaugeValC(storage.PromInfohashesCount), gaugeValC(storage.PromSeedersCount), gaugeValC(storage.PromLeechersCount)
+	observe()
+	entries1, ri1, rs1, rl1, ti1, ts1, tl1 := entries, ri, rs, rl, ti, ts, tl
+	// post phase (sequential): much later, one complete expiry pass whose cutoff lies after everything stored so far.
+	// Whatever state the concurrent phase left - registered or not - nothing may survive it.
+	postClock, postCut := sc.Clock+int64(time.Hour), sc.Clock+int64(30*time.Minute)
+	timecache.VerifPin(postClock)
+	func() {
+		defer func() { _ = recover() }()
+		e.execOp(cOp{T: "gc", Cutoff: postCut}, nil)
+	}()
+	observe()
+	entries2 := entries
+	entries, ri, rs, rl, ti, ts, tl = entries1, ri1, rs1, rl1, ti1, ts1, tl1
 	var thr []string
 	for _, st := range steps {
 		thr = append(thr, cList(st))
@@ -543,10 +559,11 @@ func runSchedule(sc cScenario, prefix []int, rng *rand.Rand, cb *coSched) (Case,
 	if sc.Kind == "redis" {
 		kind = fmt.Sprintf("KRedisC %d", sc.Inst)
 	}
-	coq := fmt.Sprintf("{| c_kind := %s; c_setup := %s; c_clock := %s; c_threads := %s; c_final := %s; c_totals := (%s, %s, %s); c_recount := (%d, %d, %d); c_midflight_ok := %s; c_steps_only := %s |}",
-		kind, cList(setup), cZ(sc.Clock), "[\n  "+strings.Join(thr, ";\n  ")+"]", cList(entries), cZ(ti), cZ(ts), cZ(tl), ri, rs, rl, cBool(midOK && ok), cBool(sc.Kind == "mem"))
+	coq := fmt.Sprintf("{| c_kind := %s; c_setup := %s; c_clock := %s; c_threads := %s; c_final := %s; c_totals := (%s, %s, %s); c_recount := (%d, %d, %d); c_midflight_ok := %s; c_steps_only := %s; c_post := [SClock %s; SExpire %s]; c_final2 := %s |}",
+		kind, cList(setup), cZ(sc.Clock), "[\n  "+strings.Join(thr, ";\n  ")+"]", cList(entries), cZ(ti), cZ(ts), cZ(tl), ri, rs, rl, cBool(midOK && ok), cBool(sc.Kind == "mem"),
+		cZ(postClock), cZ(postCut), cList(entries2))
 	in := map[string]interface{}{"scenario": sc.Name, "kind": sc.Kind, "sc": sc, "schedule": append([]int{}, s.picks...)}
-	obs := map[string]interface{}{"completed": ok, "entries": len(entries), "totals": []int64{ti, ts, tl}, "recount": []int64{ri, rs, rl}, "midflight_ok": midOK, "steps": steps, "panics": panics}
+	obs := map[string]interface{}{"completed": ok, "entries": len(entries), "totals": []int64{ti, ts, tl}, "recount": []int64{ri, rs, rl}, "midflight_ok": midOK, "steps": steps, "panics": panics, "entries_after_late_expiry": len(entries2)}
 	return Case{Coq: coq, In: in, Obs: obs, Kind: sc.Kind + ":" + sc.Name}, s.picks, s.branch, ok
 }
 
@@ -712,6 +729,13 @@ func concStream(o *Out, rng *rand.Rand, n int) {
 	for _, other := range []cOp{p("puts", ihA, 1, 1), p("putl", ihA, 2, 1)} {
 		other.Inst = 1
 		scs = append(scs, cScenario{Name: "redis-gc-reannounce", Kind: "redis", Inst: 2, Setup: baseSetup, Clock: c1, Threads: []cOp{gc, other}})
+	}
+	// ... with a NEW member joining a swarm the pass is just emptying (every round-trip boundary of the pass's
+	// HLEN / WATCH / EXEC tail): the swarm must stay registered, i.e. a later pass must still find the member
+	for _, other := range []cOp{p("puts", ihB, 8, 1), p("putl", ihA, 9, 1), {T: "ann", IH: ihB, PID: mkID(6), IP: hx([]byte{10, 0, 0, 6}), Port: 1, Left: 0, NW: 5}} {
+		other.Inst = 1
+		scs = append(scs, cScenario{Name: "redis-gc-emptied", Kind: "redis", Inst: 2,
+			Setup: []cSetup{{stale, p("puts", ihB, 1, 1)}, {stale, p("putl", ihA, 2, 1)}}, Clock: c1, Threads: []cOp{gc, other}})
 	}
 	// ... and two passes from two instances at once (known finding F11)
 	gc2 := gc
